@@ -16,7 +16,7 @@ from concurrent.futures import ThreadPoolExecutor
 
 from lib import vf
 
-HARNESS_FILES = ["main.go", "gen.go", "config.go", "cases.go", "table.go", "rt/rt.go"]
+HARNESS_FILES = ["main.go", "gen.go", "config.go", "cases.go", "table.go", "shapes.go", "rt/rt.go"]
 
 
 def _hkey():
